@@ -395,7 +395,7 @@ RULES.append(("C13.h", "run loops stop only when the worker's queues are empty (
 
 def rule_mustpass(ctx):
     from . import mustpass
-    mustpass.check(ctx, ['st-spawn-enqueues', 'mt-spawn-enqueues'])
+    mustpass.check(ctx, ['st-spawn-enqueues', 'mt-spawn-enqueues', 'wakers-wake', 'wake-updates-state'])
 
 
 RULES.append(("C13.i", "must-pass-through: no path around the effects this property rests on (added fast paths / early returns)", rule_mustpass))
@@ -403,7 +403,7 @@ RULES.append(("C13.i", "must-pass-through: no path around the effects this prope
 
 def rule_commit(ctx):
     from . import mustpass
-    for g, floor in [('task-release', 40), ('pool', 40)]:
+    for g, floor in [('task-release', 40), ('pool', 40), ('task-wake', 10)]:
         mustpass.commit_group(ctx, g, floor)
 
 
